@@ -1304,9 +1304,10 @@ func (self *_Assembler) _asm_OP_str(_ *_Instr) {
 }
 
 func (self *_Assembler) _asm_OP_bin(_ *_Instr) {
-	self.parse_string()                             // PARSE  STRING
-	self.slice_from(_VAR_st_Iv, -1)                 // SLICE  st.Iv, $-1
-	self.Emit("MOVQ", _DI, jit.Ptr(_VP, 0))         // MOVQ   DI, (VP)
+	self.parse_string()             // PARSE  STRING
+	self.slice_from(_VAR_st_Iv, -1) // SLICE  st.Iv, $-1
+	/* (VP) still holds the previous backing array: overwriting it needs the barrier */
+	self.WriteRecNotAX(15, _DI, jit.Ptr(_VP, 0), false, false)
 	self.Emit("MOVQ", _SI, jit.Ptr(_VP, 8))         // MOVQ   SI, 8(VP)
 	self.Emit("SHRQ", jit.Imm(2), _SI)              // SHRQ   $2, SI
 	self.Emit("LEAQ", jit.Sib(_SI, _SI, 2, 0), _SI) // LEAQ   (SI)(SI*2), SI
